@@ -81,6 +81,14 @@ func loginFlow(r *Run, c hCfg, sh compliantShape, path, query string, further in
 	}
 	resp := http.Response{Header: http.Header{"Set-Cookie": []string{sc}}}
 	ck := resp.Cookies()[0]
+	// the browser keeps the cookie as long as the cookie says: a session cookie until the browser closes, one with
+	// Max-Age (or Expires) only that long
+	cookieLife := int64(-1)
+	if ck.MaxAge > 0 {
+		cookieLife = int64(ck.MaxAge)
+	} else if !ck.Expires.IsZero() {
+		cookieLife = int64(ck.Expires.Sub(s.w.rig.clock.Now()) / time.Second)
+	}
 	u, _ := url.Parse(loc)
 	state := u.Query().Get("state")
 	redirectURI := u.Query().Get("redirect_uri")
@@ -129,7 +137,12 @@ func loginFlow(r *Run, c hCfg, sh compliantShape, path, query string, further in
 		if i > 0 && i%2 == 0 {
 			p = "/other/page?x=" + fmt.Sprint(i)
 		}
-		q3 := hReq{Scheme: "https", Host: "app.example.com", Path: p, Cookie: ck.Name + "=" + ck.Value,
+		cookieHdr := ck.Name + "=" + ck.Value
+		if cookieLife >= 0 && elapsed >= cookieLife {
+			cookieHdr = "" // the browser has discarded the cookie
+			r.Dist["browser-dropped-expired-cookie"]++
+		}
+		q3 := hReq{Scheme: "https", Host: "app.example.com", Path: p, Cookie: cookieHdr,
 			Gen: [4]string{s.uniq("sid"), s.uniq("nonce"), s.uniq("state"), s.uniq("VERIFIER-marker")}, KeysOK: true, IDP: sh.answer(s, nonce)}
 		o3 := s.do(q3)
 		if o3.Resp.GetStatus().GetCode() != 0 {
@@ -182,6 +195,21 @@ func runC03(r *Run) {
 			}
 		}
 	}
+	// an ACTIVE browser under session timeouts: requests come more often than the idle limit asks for and stay inside the
+	// absolute limit, so the session lives as long as the tokens do - and so must the cookie the browser was given
+	for _, store := range []string{"mem", "redis"} {
+		for _, lim := range [][2]time.Duration{{0, 100 * time.Second}, {3600 * time.Second, 200 * time.Second}, {1000 * time.Second, 0}} {
+			if r.unknownViolations() > 0 {
+				break
+			}
+			c := genCfg(r, false, n)
+			c.Store, c.Access, c.Abs, c.Idle, c.Disc = store, false, lim[0], lim[1], nil
+			loginFlow(r, c, compliantShape{ExpiresIn: "long", TokenType: "Bearer", IDLifetime: 300}, "/app/active", "", 11)
+			n++
+			r.Case(fmt.Sprintf("active|%s|%v", store, lim))
+		}
+	}
+	overlappingLogins(r, "C03")
 	discSweep(r, "[C03]") // a provider whose discovery endpoint is briefly unavailable and then healthy: the next handler construction succeeds
 	systemLogin(r)
 	r.Finish("login flows of a browser that follows the redirects: every compliant token-response shape (expires_in absent/0/short/long x refresh token yes/no x string/array audience x token_type capitalisation x extra members) x access-token forwarding on/off x cookie prefix, logout, scopes, store (memory/Redis) x original URLs with reserved characters, followed by 4-11 further requests spread over the token lifetime; handler level with a virtual clock (each line also executed on the Lean model), plus flows through the real ExtAuthZFilter.Check with trigger rules, the real session store factory, the real random generator and the real clock; non-trivial = a completed flow, distinct by (shape, forwarding, URL)")
